@@ -4,6 +4,7 @@ go 1.26
 
 require (
 	github.com/pion/logging v0.2.4
+	github.com/pion/randutil v0.1.0
 	github.com/pion/stun/v3 v3.1.6
 	github.com/pion/transport/v4 v4.0.2
 	github.com/pion/turn/v5 v5.0.0
@@ -11,7 +12,6 @@ require (
 
 require (
 	github.com/pion/dtls/v3 v3.1.4 // indirect
-	github.com/pion/randutil v0.1.0 // indirect
 	github.com/wlynxg/anet v0.0.5 // indirect
 	golang.org/x/crypto v0.48.0 // indirect
 	golang.org/x/sys v0.41.0 // indirect
